@@ -106,3 +106,66 @@ def lemma_exp_neg_log(n: float):
     ax_exp_add(real(log(n)), -real(log(n)))
     ax_exp_zero()
     ax_exp_pos(-real(log(n)))
+
+
+@spec
+def BCOUNT(a: A[bool, 1], lo: int, hi: int) -> int:
+    """number of True entries in a[lo:hi]"""
+    decreases(hi - lo)
+    if hi <= lo:
+        return 0
+    return BCOUNT(a, lo, hi - 1) + ite(a[hi - 1], 1, 0)
+
+
+@lemma(shared=True)
+def lemma_bcount_range(a: A[bool, 1], lo: int, hi: int):
+    requires(lo <= hi)
+    ensures(0 <= BCOUNT(a, lo, hi), BCOUNT(a, lo, hi) <= hi - lo)
+    decreases(hi - lo)
+    unfold(BCOUNT(a, lo, hi))
+    if hi > lo:
+        lemma_bcount_range(a, lo, hi - 1)
+
+
+@lemma(shared=True)
+def lemma_bcount_ext(a: A[bool, 1], b: A[bool, 1], lo: int, hi: int):
+    requires(forall(lo, hi, lambda t: a[t] == b[t]))
+    ensures(BCOUNT(a, lo, hi) == BCOUNT(b, lo, hi))
+    decreases(hi - lo)
+    unfold(BCOUNT(a, lo, hi), BCOUNT(b, lo, hi))
+    if hi > lo:
+        lemma_bcount_ext(a, b, lo, hi - 1)
+
+
+@lemma(shared=True)
+def lemma_bcount_clear(a: A[bool, 1], b: A[bool, 1], lo: int, hi: int, idx: int):
+    """b = a with the True entry at idx cleared: one True fewer"""
+    requires(lo <= idx, idx < hi, a[idx], not b[idx], forall(lo, hi, lambda t: implies(t != idx, a[t] == b[t])))
+    ensures(BCOUNT(b, lo, hi) == BCOUNT(a, lo, hi) - 1)
+    decreases(hi - lo)
+    unfold(BCOUNT(a, lo, hi), BCOUNT(b, lo, hi))
+    if idx < hi - 1:
+        lemma_bcount_clear(a, b, lo, hi - 1, idx)
+    else:
+        lemma_bcount_ext(a, b, lo, hi - 1)
+
+
+@lemma(shared=True)
+def lemma_bcount_not(a: A[bool, 1], b: A[bool, 1], lo: int, hi: int):
+    """b is the element-wise negation of a: the counts are complementary"""
+    requires(lo <= hi, forall(lo, hi, lambda t: b[t] == (not a[t])))
+    ensures(BCOUNT(b, lo, hi) == (hi - lo) - BCOUNT(a, lo, hi))
+    decreases(hi - lo)
+    unfold(BCOUNT(a, lo, hi), BCOUNT(b, lo, hi))
+    if hi > lo:
+        lemma_bcount_not(a, b, lo, hi - 1)
+
+
+@lemma(shared=True)
+def lemma_bcount_all(a: A[bool, 1], lo: int, hi: int):
+    requires(lo <= hi, forall(lo, hi, lambda t: a[t]))
+    ensures(BCOUNT(a, lo, hi) == hi - lo)
+    decreases(hi - lo)
+    unfold(BCOUNT(a, lo, hi))
+    if hi > lo:
+        lemma_bcount_all(a, lo, hi - 1)
